@@ -67,10 +67,12 @@ def _scalar_syms(x, out, depth=0):
         if len(x) == 2 and x[0] == "sym" and isinstance(x[1], str):
             out.add(x[1])
         elif x[0] in ("min", "max") and len(x) >= 2 and isinstance(x[1], (frozenset, set, tuple, list)):
+            if x[0] == "max" and any(isinstance(y, Rat) and y.is_const() and y.const_value() >= 0 for y in x[1]):
+                return                      # max(0, p) is non-negative whatever p is
             for y in x[1]:
                 _scalar_syms(y, out, depth + 1)
-        elif x[0] in ("floor", "int", "abs", "round", "expr", "neg") and len(x) >= 2:
-            _scalar_syms(x[1], out, depth + 1)
+        elif x[0] in ("floor", "int", "round", "expr", "neg") and len(x) >= 2:
+            _scalar_syms(x[1], out, depth + 1)   # (abs(p) is non-negative whatever p is: not followed)
 
 
 def _mentions(x, p: str) -> bool:
